@@ -179,6 +179,27 @@ def run_case(tier, seed, index, spec=None):
                     m = C.close_tensor(A.densify_pt(o['value']), E.to_tensor(ref2, outi, sz, dtype), tolname)
                     if m:
                         V(f'value:{nm}:{S}', m, a=TP.depict(p1), b=TP.depict(p2), v=TP.depict(p3))
+        # the semiring objects' own dense shorthands: Semiring.mm(A, B) / Semiring.mv(A, v) on torch Tensors
+        # (inner dimensions beyond 10 reach mm's blocked accumulation)
+        if index % 4 == 1:
+            ni, nj, nk = rng.randint(1, 4), rng.choice([1, 2, 3, 9, 10, 11, 19, 20, 21, 23]), rng.randint(1, 4)
+            mk = lambda *sh: torch.tensor([rng.choice(vals) for _ in range(math.prod(sh))], dtype=dtype).reshape(sh)
+            da, db, dv = mk(ni, nj), mk(nj, nk), mk(nj)
+            sz = dict(i=ni, j=nj, k=nk)
+            for nm, lib, ref2, outi in (('Semiring.mm', lambda: sr.mm(da.clone(), db.clone()), E.einsum([da, db], [('i', 'j'), ('j', 'k')], ('i', 'k'), sz, S), ('i', 'k')),
+                                        ('Semiring.mv', lambda: sr.mv(da.clone(), dv.clone()), E.einsum([da, dv], [('i', 'j'), ('j',)], ('i',), sz, S), ('i',))):
+                o = C.call(lib)
+                obs['mv_mm_calls'] += 1
+                obs['dense_mv_mm_calls'] = obs.get('dense_mv_mm_calls', 0) + 1
+                e2 = E.to_tensor(ref2, outi, sz, dtype)
+                if not o['ok']:
+                    V(f"exception:{nm}:{o['exc_type']}:{o.get('where', '')}", f'{nm} raised {o["exc"]}', traceback=o['tb'], shapes=[ni, nj, nk])
+                elif not isinstance(o['value'], torch.Tensor) or o['value'].dtype != e2.dtype or tuple(o['value'].shape) != tuple(e2.shape):
+                    V(f'value:{nm}:{S}:shape-or-dtype', f'{nm} returned {type(o["value"]).__name__} {getattr(o["value"], "dtype", None)} {tuple(getattr(o["value"], "shape", ()))}, expected {e2.dtype} {tuple(e2.shape)}', shapes=[ni, nj, nk])
+                else:
+                    m = C.close_tensor(o['value'], e2, tolname)
+                    if m:
+                        V(f'value:{nm}:{S}', m, shapes=[ni, nj, nk])
         # empty operand list
         if index % 50 == 0:
             o = C.call(lambda: I.einsum([], [], [], sr))
